@@ -193,3 +193,23 @@ pub fn zkir_mod_exp_offcircuit(x: u64, n: u64, m: u64) -> bool {
     println!("zkir mod_exp({n}) x={x} m={m} off-circuit -> {:?}", r);
     r.is_err()
 }
+
+/// `DualMSM::batch_verify` (the provided `Guard::batch_verify`) on `ng` empty guards and `np` parameter sets.
+pub fn dualmsm_batch_verify_lengths(ng: usize, np: usize) -> bool {
+    use midnight_proofs::poly::commitment::Guard;
+    use midnight_proofs::poly::kzg::{msm::DualMSM, KZGCommitmentScheme};
+    let rng = rand::rngs::StdRng::seed_from_u64(7);
+    let srs: ParamsKZG<midnight_curves::Bls12> = ParamsKZG::unsafe_setup(2, rng);
+    let vp = srs.verifier_params();
+    let ps = vec![vp.clone(), vp];
+    let guards: Vec<DualMSM<midnight_curves::Bls12>> = (0..ng).map(|_| DualMSM::init()).collect();
+    let r = quiet(|| {
+        <DualMSM<midnight_curves::Bls12> as Guard<F, KZGCommitmentScheme<midnight_curves::Bls12>>>::batch_verify(
+            guards.into_iter(),
+            ps[..np].iter(),
+        )
+        .map_err(|e| format!("{e:?}"))
+    });
+    println!("DualMSM::batch_verify({ng} guards, {np} params) -> {:?}", r);
+    r.is_err()
+}
